@@ -7,12 +7,15 @@ Tie: MetadataQuerent(MetadataExprParser()).query and Decoder().process(info_only
 driver (`mdquery`, `msg-decode`).  Oracle: direct scan of msg.sections; info-only sections vs the full
 decode; the same after overwriting the data section and damaging the stop signature; stream scanned
 info-only returns each message by its declared total length.
+harness/c17_info.py: "metadata-only ignores the data content" as a matrix - both entry points (Decoder.process and
+generate_bufr_message in four modes) x every data category 0..255 x n_subsets 0/1/many x other header values x data
+section intact / random / 0xFF / 0x00 / stream cut at its declared end, streams of 1..4 messages.
 """
 import glob
 import json
 import os
 
-from harness import core, msgs
+from harness import c17_info, core, msgs
 
 PROP = 'C17'
 
@@ -26,7 +29,15 @@ META = dict(
          'opaque. Correspondence: every parameter name of every bundled layout x editions 2,3,4 x section 2 absent/present x '
          '%name, %k.name for k in -1..6, non-numeric k, missing %, blanks; info-only vs full decode on generated messages and on '
          'the sample files of /repo/tests/data, also with the data section overwritten by random bytes and the stop signature '
-         'damaged; info-only stream scan takes each message by its declared total length.',
+         'damaged; info-only stream scan takes each message by its declared total length. Metadata-only decoding ignores the '
+         'data content through BOTH entry points - Decoder.process(info_only=True) and generate_bufr_message(info_only=True) '
+         'plain / continue_on_error / filter_expr / both - over streams of 1..4 messages with separators, for every data category '
+         '0..255 (incl. 11: generated and real NCEP table definitions) x n_subsets 0 / 1 / many, editions 2-4, section 2, '
+         'compressed flag, master table number, table versions / centres that do not exist on disk, n_subsets contradicting the '
+         'data, unknown descriptors, declared total length != sum of the sections, with the data section intact / random / all '
+         '0xFF / all 0x00 / the stream cut at its declared end: every message is delivered with the sections 0-3 of a full decode '
+         'of the intact original, its bytes by declared total length, nothing raised, and the process-wide table definitions '
+         'untouched; model: Msg.Stream.scan in info mode.',
     technique='Lean 4 theorems (string functions on List Char, induction over parameter lists, prefix-determined readers) + checked '
               'model/implementation correspondence + oracle on the implementation (direct scan, info-only vs full)',
     note='The message-level theorems are proved for every well-formed layout family and every prefix-determined data reader: '
@@ -297,8 +308,10 @@ def run(ctx):
     ctx.rule = ('every parameter name of every bundled layout x editions 2,3,4 x section 2 absent/present x (%name, %k.name k=-1..6); '
                 'sampled names x non-numeric / blank-padded / signed / underscore indices, missing %, blanks, empty, two dots; '
                 'queries on full and info-only decodes; info-only vs full decode on generated messages (k = 0..47 bits) and on the '
-                'sample files, also with damaged data section and stop signature; info-only stream scan. Non-trivial: the query '
-                'returns a value.')
+                'sample files, also with damaged data section and stop signature; info-only stream scan; info matrix: '
+                'Decoder.process(info_only) and generate_bufr_message(info_only) x {plain, continue_on_error, filter, both} x data '
+                'category 0..255 x n_subsets 0/1/many x header patches x data intact/random/0xFF/0x00/cut, streams of 1..4. '
+                'Non-trivial: the query returns a value / the data section is not the intact one.')
     rng = ctx.rng('gen')
     names = all_param_names()
     exprs = expressions(names, rng)
@@ -357,6 +370,9 @@ def run(ctx):
         stream_scan(ctx, [g[0] for g in rng.sample(generated, n)], rng)
     if files:
         stream_scan(ctx, [g[0] for g in rng.sample(generated, 3)], rng)
+    # metadata-only decoding ignores the data content: both entry points x every data category x header values x
+    # data section intact / random / 0xFF / 0x00 / stream cut at its declared end (harness/c17_info.py)
+    breaks += c17_info.run(ctx)
     ctx.notes.append('expressions per message: %d; parameter names: %d; sample files: %d' % (len(exprs), len(names), len(files)))
     if breaks and ctx.violations == 0:
         b = breaks[0]
@@ -373,7 +389,9 @@ def replay(ctx, path):
     rp = body['replay']
     if 'first' in rp:
         rp = rp['first']
-    if 'expr' in rp and 'hex' in rp:
+    if 'info_matrix' in rp:
+        c17_info.replay(ctx, rp['info_matrix'])
+    elif 'expr' in rp and 'hex' in rp:
         b = bytes.fromhex(rp['hex'])
         br = check_queries(ctx, 'replay', b, rp.get('data_bits', 0), [rp['expr']], rp.get('info_only', False), rp.get('spec'))
         print(json.dumps({'breaks': br}, default=repr)[:2000])
